@@ -730,6 +730,9 @@ func checkDecoderPanics(c *km.Ctx, s *km.Sem) {
 					if st.All(func(kk km.Conj) bool { return lenAtLeast(kk, base, k+1) }) {
 						guarded, how = true, "len guard"
 					}
+					if isStr, _ := isStringIndex0(base, idx); !guarded && isStr && st.All(func(kk km.Conj) bool { return nonEmptyString(kk, base) }) {
+						guarded, how = true, "s[0] under s != \"\""
+					}
 					if !guarded && k == 0 && isSplitResult(base) {
 						guarded, how = true, "strings.Split returns at least one element"
 					}
@@ -738,6 +741,12 @@ func checkDecoderPanics(c *km.Ctx, s *km.Sem) {
 					}
 				} else if idxBelowLen(st, idx, base) {
 					guarded, how = true, "index < len guard"
+				} else if k, isLast := lenMinusConst(idx, base); isLast && k >= 1 && st.All(func(kk km.Conj) bool { return lenAtLeast(kk, base, k) }) {
+					guarded, how = true, "x[len(x)-k] under len(x) >= k"
+				} else if other, isGap := lenGapMinusOne(idx, base); isGap && st.All(func(kk km.Conj) bool { return strictlyLongerBySuffix(kk, base, other) }) {
+					guarded, how = true, "a[len(a)-len(b)-1] where b is a proper suffix/prefix of a"
+				} else if isStr, _ := isStringIndex0(base, idx); isStr && st.All(func(kk km.Conj) bool { return nonEmptyString(kk, base) }) {
+					guarded, how = true, "s[0] under s != \"\""
 				} else if foundIndexOf(st, idx, base) {
 					guarded, how = true, "index returned by slices.Index/IndexFunc over the same slice, tested >= 0"
 				} else if km.NameOf(fn) == "decodeIPV4AddressChoice" {
@@ -1066,4 +1075,97 @@ func isPlainIdentS(s string) bool {
 		}
 	}
 	return true
+}
+
+// lenMinusConst: idx is len(base) - k for a constant k.
+func lenMinusConst(idx, base ssa.Value) (int64, bool) {
+	b, ok := km.Unwrap(idx).(*ssa.BinOp)
+	if !ok || b.Op != token.SUB {
+		return 0, false
+	}
+	k, isC := km.ConstInt(b.Y)
+	cl, isCall := km.Unwrap(b.X).(*ssa.Call)
+	if !isC || !isCall {
+		return 0, false
+	}
+	bi, isB := cl.Common().Value.(*ssa.Builtin)
+	if !isB || bi.Name() != "len" || !sameOperand(cl.Common().Args[0], base) {
+		return 0, false
+	}
+	return k, true
+}
+
+// isStringIndex0: s[0] on a string.
+func isStringIndex0(base, idx ssa.Value) (bool, ssa.Value) {
+	if k, isC := km.ConstInt(idx); !isC || k != 0 {
+		return false, nil
+	}
+	if bt, ok := base.Type().Underlying().(*types.Basic); !ok || bt.Kind() != types.String {
+		return false, nil
+	}
+	return true, base
+}
+
+// nonEmptyString: conjunction k says s != "".
+func nonEmptyString(k km.Conj, s ssa.Value) bool {
+	for _, f := range k.List() {
+		if f.Op != token.NEQ || f.X == nil || f.Y == nil {
+			continue
+		}
+		if cs, ok := km.ConstString(f.Y); ok && cs == "" && sameOperand(f.X, s) {
+			return true
+		}
+		if cs, ok := km.ConstString(f.X); ok && cs == "" && sameOperand(f.Y, s) {
+			return true
+		}
+	}
+	return lenAtLeast(k, s, 1)
+}
+
+// lenGapMinusOne: idx is len(base) - len(other) - 1; returns other.
+func lenGapMinusOne(idx, base ssa.Value) (ssa.Value, bool) {
+	b, ok := km.Unwrap(idx).(*ssa.BinOp)
+	if !ok || b.Op != token.SUB {
+		return nil, false
+	}
+	if k, isC := km.ConstInt(b.Y); !isC || k != 1 {
+		return nil, false
+	}
+	d, ok := km.Unwrap(b.X).(*ssa.BinOp)
+	if !ok || d.Op != token.SUB {
+		return nil, false
+	}
+	lenOf := func(v ssa.Value) ssa.Value {
+		cl, isCall := km.Unwrap(v).(*ssa.Call)
+		if !isCall {
+			return nil
+		}
+		if bi, isB := cl.Common().Value.(*ssa.Builtin); !isB || bi.Name() != "len" {
+			return nil
+		}
+		return cl.Common().Args[0]
+	}
+	a, o := lenOf(d.X), lenOf(d.Y)
+	if a == nil || o == nil || !sameOperand(a, base) {
+		return nil, false
+	}
+	return o, true
+}
+
+// strictlyLongerBySuffix: k says other is a suffix (or prefix) of base and base != other, so len(base) > len(other).
+func strictlyLongerBySuffix(k km.Conj, base, other ssa.Value) bool {
+	affix, differ := false, false
+	for _, f := range k.List() {
+		if f.Op == token.ILLEGAL && f.Pol {
+			if cl, ok := f.X.(*ssa.Call); ok {
+				if n := km.CalleeFull(cl.Common()); (n == "strings.HasSuffix" || n == "strings.HasPrefix") && sameOperand(cl.Common().Args[0], base) && sameOperand(cl.Common().Args[1], other) {
+					affix = true
+				}
+			}
+		}
+		if f.Op == token.NEQ && f.X != nil && f.Y != nil && ((sameOperand(f.X, base) && sameOperand(f.Y, other)) || (sameOperand(f.Y, base) && sameOperand(f.X, other))) {
+			differ = true
+		}
+	}
+	return affix && differ
 }
